@@ -490,9 +490,17 @@ def shrink(case):
         yield {**case, "sched": s[:i] + s[i + 1:]}
 
 
+def search(rng):
+    """extra cases when a tie broke: more random schedules and the quick stress set (not the 10^4-call one)"""
+    out = []
+    for _ in range(3):
+        out += [c for c in gen(rng, "quick")]
+    return out
+
+
 SPEC = Spec(
     pid="C13",
-    gen=gen, impl=impl, oracle=oracle, corpus=corpus, shrink=shrink,
+    gen=gen, impl=impl, oracle=oracle, corpus=corpus, shrink=shrink, search=search,
     coq_header="From C13 Require Import Model Run.",
     coq_fn="run_show",
     to_coq=to_coq,
